@@ -66,5 +66,16 @@ func verifH_C08_requests() {
 	verifAssert(conn.closed, "C08: connection left open after an incomplete packet")
 	tok := <-c.writeSem
 	verifAssert(tok == connPending, "C08: write token not connPending after a failed write")
+	c.writeSem <- tok
+	// the read routine finds the connection closed and redials: the new
+	// connection carries nothing of the failed request, except a persisted
+	// publish, which is sent again whole and as a first transmission
+	after := verifNextConnection(c, store, "C08")
+	if kind == 5 {
+		want := verifRefPublish(false, 1, false, []byte{'t'}, uint16(atLeastOnceIDSpace), msg)
+		verifAssert(verifBytesEq(after, want), "C08/C05: a persisted publish whose first write broke is not sent whole, once and without DUP on the next connection")
+	} else {
+		verifAssert(len(after) == 0, "C08: bytes of a failed, non-persisted request appear on the next connection")
+	}
 	verifReach("failed")
 }
